@@ -5,7 +5,7 @@ import importlib
 # property -> list of (module, function name).  A function may serve several properties; its findings and
 # recorded obligations are filtered by property.
 RULES = {
-    "C01": [("sa.rules.b6", "r_C19a_C01"), ("sa.rules.c01", "r_C01ef"), ("sa.rules.c17", "r_C01h"), ("sa.rules.c01", "r_C01i"), ("sa.rules.c22", "r_rule_params_eval"), ("sa.rules.b6", "r_C23"), ("sa.rules.c04", "r_C04a"), ("sa.rules.c04", "r_C04num"), ("sa.rules.c03", "r_C03k")],
+    "C01": [("sa.rules.b6", "r_C19a_C01"), ("sa.rules.c01", "r_C01ef"), ("sa.rules.c17", "r_C01h"), ("sa.rules.c01", "r_C01i"), ("sa.rules.c22", "r_rule_params_eval"), ("sa.rules.b6", "r_C23"), ("sa.rules.c04", "r_C04a"), ("sa.rules.c04", "r_C04num"), ("sa.rules.c03", "r_C03k"), ("sa.rules.c22", "r_C22jk")],
     "C02": [("sa.rules.b6", "r_C02ab"), ("sa.rules.b3", "r_C02cd"), ("sa.rules.b3", "r_C08_C34"), ("sa.rules.c08", "r_C08bc"), ("sa.rules.c01", "r_C01ef")],
     "C03": [("sa.rules.b1", "r_C03a"), ("sa.rules.b6", "r_C03bc"), ("sa.rules.b3", "r_C03de_C11a_C17bc"), ("sa.rules.c03", "r_C03fgh"), ("sa.rules.c03", "r_C03j"), ("sa.rules.c03", "r_C03k"), ("sa.rules.c25", "r_C25efg")],
     "C04": [("sa.rules.b2", "r_C04"), ("sa.rules.c04", "r_C04a"), ("sa.rules.c04", "r_C04num"), ("sa.rules.c04", "r_C04defaults"), ("sa.rules.c01", "r_C01ef"), ("sa.rules.cmisc", "r_C06bcd")],
@@ -26,17 +26,17 @@ RULES = {
     "C19": [("sa.rules.b6", "r_C19a_C01"), ("sa.rules.c16", "r_cachekeys"), ("sa.rules.c22", "r_visitor")],
     "C20": [("sa.rules.b1", "r_C20a"), ("sa.rules.b6", "r_C19a_C01"), ("sa.rules.c16", "r_cachekeys"), ("sa.rules.c22", "r_visitor")],
     "C21": [("sa.rules.b2", "r_C21a"), ("sa.rules.b6", "r_C19a_C01"), ("sa.rules.c16", "r_cachekeys"), ("sa.rules.c22", "r_visitor")],
-    "C22": [("sa.rules.c22", "r_rule_params_eval"), ("sa.rules.b6", "r_C19a_C01"), ("sa.rules.b6", "r_C17ad_C22b"), ("sa.rules.c22", "r_visitor")],
+    "C22": [("sa.rules.c22", "r_rule_params_eval"), ("sa.rules.b6", "r_C19a_C01"), ("sa.rules.b6", "r_C17ad_C22b"), ("sa.rules.c22", "r_visitor"), ("sa.rules.c22", "r_C22jk")],
     "C23": [("sa.rules.b6", "r_C23"), ("sa.rules.c22", "r_rule_params_eval"), ("sa.rules.c22", "r_visitor"), ("sa.rules.c22", "r_C23g_C24d")],
     "C24": [("sa.peg", "r_C24"), ("sa.rules.c16", "r_cachekeys"), ("sa.rules.c22", "r_C23g_C24d")],
     "C25": [("sa.rules.b2", "r_C25"), ("sa.rules.c25", "r_C25efg")],
     "C26": [("sa.rules.b2", "r_C26a"), ("sa.rules.b2", "r_C26bcdef"), ("sa.rules.c26", "r_C26eval")],
     "C27": [("sa.rules.b1", "r_C27"), ("sa.rules.c25", "r_C27d")],
-    "C28": [("sa.rules.b7", "r_origin"), ("sa.rules.b3", "r_C28b_C33b_C30bc"), ("sa.rules.c08", "r_C08bc"), ("sa.rules.cmisc", "r_C06bcd"), ("sa.rules.c25", "r_C28cd"), ("sa.rules.c25", "r_C28e")],
+    "C28": [("sa.rules.b7", "r_origin"), ("sa.rules.b3", "r_C28b_C33b_C30bc"), ("sa.rules.c08", "r_C08bc"), ("sa.rules.cmisc", "r_C06bcd"), ("sa.rules.c25", "r_C28cd"), ("sa.rules.c25", "r_C28e"), ("sa.rules.c25", "r_C28f")],
     "C29": [("sa.rules.b5", "r_C29"), ("sa.rules.c29", "r_export2"), ("sa.rules.c29", "r_C29e")],
     "C30": [("sa.rules.b1", "r_C30a"), ("sa.rules.b3", "r_C28b_C33b_C30bc"), ("sa.rules.c29", "r_cli2"), ("sa.rules.c26", "r_C26eval")],
     "C31": [("sa.rules.b4", "r_ledger"), ("sa.rules.c14", "r_ledger2"), ("sa.rules.c29", "r_export2")],
-    "C32": [("sa.rules.c32", "r_C32"), ("sa.rules.c32", "r_C32c")],
+    "C32": [("sa.rules.c32", "r_C32"), ("sa.rules.c32", "r_C32c"), ("sa.rules.c32", "r_C32de")],
     "C33": [("sa.rules.b1", "r_C33a"), ("sa.rules.b3", "r_C28b_C33b_C30bc"), ("sa.rules.c29", "r_C33c_C34g"), ("sa.rules.cmisc", "r_C06bcd")],
     "C34": [("sa.rules.b3", "r_C08_C34"), ("sa.rules.c08", "r_C08bc"), ("sa.rules.cmisc", "r_C13d_C34f_C09d"), ("sa.rules.c29", "r_C33c_C34g"), ("sa.rules.cmisc", "r_C06bcd")],
 }
